@@ -75,6 +75,40 @@ Section IdSem.
       rewrite Ei, Nat.eqb_refl in Hne. discriminate.
   Qed.
 
+  (* ---- Tian & Pearl's Lemma 3 (used by identify_district_variables, C17) in functional form ----
+     Q[T] is the distribution of T under do(V \ T). With A = An(C) in G_T, what is done in addition to nodes outside A (in particular to T \ A)
+     changes the value of no node of A at any exogenous state: hence Q[A] = sum_{T \ A} Q[T] in every model. *)
+  Lemma find_app {T} (p : T -> bool) l1 l2 : find p (l1 ++ l2) = match find p l1 with Some a => Some a | None => find p l2 end.
+  Proof. induction l1 as [|a t IH]; [reflexivity|]. cbn [app find]. destruct (p a); [reflexivity|exact IH]. Qed.
+
+  Theorem lemma3_same_values (T C : list nat) ivs extra u x x' :
+    (forall v, In v (nodes g) -> ~ In v T -> In v (map fst ivs)) ->
+    (forall i, In i extra -> ~ In (fst i) (ancestors_inclusive (subgraph g T) C)) ->
+    solution g U f rho ivs u x ->
+    solution g U f rho (ivs ++ extra) u x' ->
+    forall v, In v (nodes g) -> In v (ancestors_inclusive (subgraph g T) C) -> x v = x' v.
+  Proof.
+    intros Hout Hextra Hs Hs'. set (A := ancestors_inclusive (subgraph g T) C) in *.
+    assert (Hfound : forall v, In v (map fst ivs) -> find (fun j => Nat.eqb (fst j) v) ivs <> None).
+    { intros v Hin E. apply in_map_iff in Hin. destruct Hin as [i [Ei Hi]]. pose proof (find_none _ _ E i Hi) as Hne. cbn in Hne.
+      rewrite Ei, Nat.eqb_refl in Hne. discriminate. }
+    intros v Hv Av.
+    apply (solutions_agree g U f rho f_local order order_ok (fun w => In w A \/ ~ In w T) ivs (ivs ++ extra) u x x' Hs Hs'); [| |exact Hv|left; exact Av].
+    - intros w Hwn [Aw|Hnt]; unfold do_value; f_equal; rewrite find_app.
+      + destruct (find (fun i => Nat.eqb (fst i) w) ivs) eqn:E; [reflexivity|]. symmetry.
+        destruct (find (fun i => Nat.eqb (fst i) w) extra) eqn:E2; [|reflexivity]. apply find_some in E2. destruct E2 as [Hin Heq].
+        apply Nat.eqb_eq in Heq. exfalso. apply (Hextra _ Hin). rewrite Heq. exact Aw.
+      + destruct (find (fun i => Nat.eqb (fst i) w) ivs) eqn:E; [reflexivity|]. exfalso. apply (Hfound w (Hout w Hwn Hnt) E).
+    - intros w p Hwn Aw Hnone Hp. apply In_parents in Hp.
+      assert (HwT : In w T).
+      { destruct (in_dec Nat.eq_dec w T) as [Hin|Hnin]; [exact Hin|]. exfalso. unfold do_value in Hnone.
+        destruct (find (fun j => Nat.eqb (fst j) w) ivs) eqn:E; [discriminate|]. apply (Hfound w (Hout w Hwn Hnin) E). }
+      destruct Aw as [Aw|Hnt]; [|contradiction].
+      destruct (in_dec Nat.eq_dec p T) as [HpT|HpT]; [left|right; exact HpT].
+      unfold A in *. apply ancestors_inclusive_spec in Aw. destruct Aw as [s [Hs0 Hd]]. apply ancestors_inclusive_spec. exists s. split; [exact Hs0|].
+      eapply rt_trans; [|exact Hd]. apply rt_step. apply subgraph_dir. repeat split; assumption.
+  Qed.
+
   (* the outcomes are among those nodes *)
   Lemma outcomes_in_their_ancestors (h : mg nat) Y y : In y Y -> In y (ancestors_inclusive h Y).
   Proof. intros Hy. apply ancestors_inclusive_spec. exists y. split; [exact Hy|apply rt_refl]. Qed.
